@@ -136,7 +136,9 @@ CLAIMED["C04"] = dict(
     "shifts those behind it by the size change and leaves nothing inside the range or beyond the new end (symbolic "
     "expressions and interval-keyed tables); split_block / join_blocks re-key block-keyed entries without moving "
     "them (same interval, same offset) and the resulting tables are exactly the re-keyed ones; remove_block drops "
-    "exactly the removed block's entries." + EMOD_TIE + " Partial: patch expressions (assembler output) and "
+    "exactly the removed block's entries; over a whole delete() the symbolic expressions of the block's interval are "
+    "exactly the shifted ones (in front: same offset, behind: moved down by the deleted length, inside: gone) and "
+    "no other interval changes." + EMOD_TIE + " Partial: patch expressions (assembler output) and "
     "join_byte_intervals' table moves are covered by the oracle only.",
     technique=EMOD_TECH,
     design="DESIGN.md#c04",
